@@ -116,6 +116,7 @@ ENTRIES.append(('C16', 'real-nr3-nodot', ['der:real-nr3-nodot'], "('c16', ('real
 
 ENTRIES.append(('C16', 'time-fraction-zeros', ['der:time-fraction-zeros'], "('c16', ('tag', 'E', 'P', 9, ('useful', 'GeneralizedTime')), '20000915230957.05Z', 'DER', 'e914181232303030303931353233303935372e30355a')"))
 
+ENTRIES.append(('C19', 'emptyable-optional', ['nested:emptyable-optional'], "('c19', 'nested-seq', 168945197062137, 20)"))
 ENTRIES.append(('C20', 'time-fraction-zeros', ['time-fraction-zeros'], "('c20-str', 'GeneralizedTime', '197008280053.020Z', 'CER')"))
 
 _WRAP_WHAT = ("CachingStreamWrapper (used for every non-seekable substrate) drops its cache and renumbers positions from 0 when the mark is set more than io.DEFAULT_BUFFER_SIZE octets into the cache; the decoder keeps absolute positions (original_position, bytesRead) of enclosing definite-length elements across that point")
